@@ -397,7 +397,7 @@ func c09Shrink(raw json.RawMessage) []json.RawMessage {
 func init() {
 	Register(&Check{
 		ID: "C09", Level: "fault_enumeration",
-		QuickRuns: 9000, ThoroughRuns: 400000,
+		QuickRuns: 5000, ThoroughRuns: 300000,
 		Gen: c09Gen, Exec: c09Exec, Shrink: c09Shrink,
 		Rule: "one case = one generated session of 4-12 statements (ints, floats, strings, arrays, dicts, functions, computed values with attributes, macros around definitions, follow-ups that call restored functions, load restored computed values, index and mutate restored containers; sometimes a cycle or a non-finite float). The host snapshots {Attrs.ToJSON, GetCurSeed} after every statement; EVERY crash point p is enumerated: a fresh VM is restored from snapshot p (or, fault 'lost write', p-1) and statements p+1..n are replayed and compared field by field (value, error, detail, matched/rest, op count, generator bytes, variables) with the run that never crashed. Every snapshot is also checked for structural round trip and for error-on-unrepresentable. distinct = distinct statement lists; non-trivial = at least 3 statements were compared after a restore",
 		Real: []string{"dicescript VM, ToJSON/UnmarshalJSON of values and variable maps, lazy compilation of restored functions/computed values"},
